@@ -226,7 +226,7 @@ def std_flow(R, mc_module, runs, trace_module, trace_consts, dev_ids, invariants
             for d in (k.get("devs") or ["?"]):
                 R.known.setdefault(d, k)
     R.samples = R.cases[:2]
-    R.extra["bounds"] = [dict(r[1], model=r[0]) for r in runs]
+    R.extra.setdefault("bounds", []).extend(dict(r[1], model=r[0]) for r in runs)
 
 
 # ------------------------------------------------------------------------- C06
@@ -339,6 +339,9 @@ def check_C02(tier, replay=None):
     slices = ("builtins", "positions", "nested", "attrs", "pairs", "recursive", "toplevel", "homonym", "form") + (("positions_all", "triples") if tier == "thorough" else ())
     runs = [("MC_C02_" + s, {"Slice": '"%s"' % s}) for s in slices]
     std_flow(R, "MC_C02", runs, "Trace_Out", {"P": '"C02"'}, MEMBER_DEVS, ["Agreement", "Emit"])
+    # xs:annotation inside a model group / inside xs:extension: its own run, because its deviation (D43) is an OPEN
+    # finding - listing it for the other slices would switch their design-level invariant (guarded by Dev = {}) off
+    std_flow(R, "MC_C02", [("MC_C02_annotated", {"Slice": '"annotated"'})], "Trace_Out", {"P": '"C02"'}, ("D43",), ["Emit"])
     # second observation (the property's observe_at): typed struct literals synthesised from Schema!ExpFields must
     # compile against the generated structs (compile/run pipeline, shared and cached)
     import crpipe
